@@ -1174,6 +1174,12 @@ def run(chk):
     chk.floor('R09.9', 1)
     c10.check_name_dedup(chk, chk.tier, rule='R09.8')
     check_whole_outputs(chk, chk.tier)
+    # R09.10: which functions share an output file (-f N, the hash order of the static/dynamic lists) must not change any function's
+    # text: each function in a multi-function file equals its text when it is written alone, for several orders - including a void
+    # function that returns with operands still on its stack followed by functions with results (rule shared with C03 R03.2)
+    from . import c03
+    c03.check_function_sequence(chk, rule='R09.10')
+    chk.floor('R09.10', 20)
     chk.extra['template_pairs'] = n_t
     chk.extra['twin_evaluations'] = n_w
     chk.floor('R09.1', 30)
